@@ -20,6 +20,7 @@ mod c11;
 mod c12;
 mod c13;
 mod c14;
+mod c15;
 mod c16;
 mod c17;
 mod c18;
@@ -91,6 +92,7 @@ fn main() {
         "c13_workspace" => c13::workspace(thorough),
         "c14_normalize" => c14::normalize(thorough),
         "c14_package" => c14::package(thorough),
+        "c15_package" => c15::package(thorough),
         "c16_cleanup" => c16::cleanup(thorough),
         "c17_argv" => c17::argv_roundtrip(thorough),
         "c17_glue" => c17::glue(thorough),
